@@ -98,7 +98,8 @@ class Vocab:
         return self.gnames[n]
 
     def gabs(self, ident) -> str:
-        if hasattr(ident, "identifier"):
+        from rdflib.graph import Graph
+        if isinstance(ident, Graph):
             ident = ident.identifier
         n = self.ginv.get(ident)
         if n is None:
